@@ -35,7 +35,7 @@ pub fn load_builtins(vm: &mut Vm) {
 }
 
 pub fn string_append(vm: &mut Vm) -> Result<VCell, Error> {
-    let argc = pop_argc(vm, 1, None, "string-append")?;
+    let argc = pop_argc(vm, 0, None, "string-append")?;
     let mut output = String::new();
     for _ in 0..argc {
         let s = pop_string(vm, "string-append")?;
@@ -79,7 +79,7 @@ pub fn string_ref(vm: &mut Vm) -> Result<VCell, Error> {
     let s = s.borrow();
     match s.chars().nth(idx) {
         Some(c) => Ok(c.into()),
-        None => Err(InvalidStringIndex(idx, s.chars().count() - 1)),
+        None => Err(InvalidStringIndex(idx, s.chars().count().saturating_sub(1))),
     }
 }
 
@@ -87,14 +87,14 @@ fn char_offset(s: &str, idx: usize) -> Result<usize, Error> {
     s.char_indices()
         .nth(idx)
         .map(|it| it.0)
-        .ok_or_else(|| InvalidStringIndex(idx, s.chars().count() - 1))
+        .ok_or_else(|| InvalidStringIndex(idx, s.chars().count().saturating_sub(1)))
 }
 
 fn char_offset_inclusive(s: &str, idx: usize) -> Result<usize, Error> {
     s.char_indices()
         .nth(idx)
         .map(|it| it.0 + it.1.len_utf8())
-        .ok_or_else(|| InvalidStringIndex(idx, s.chars().count() - 1))
+        .ok_or_else(|| InvalidStringIndex(idx, s.chars().count().saturating_sub(1)))
 }
 
 fn char_substring_offset(
@@ -103,6 +103,12 @@ fn char_substring_offset(
     end: Option<usize>,
 ) -> Result<(usize, usize), Error> {
     let len = s.chars().count();
+
+    for idx in [start, end].into_iter().flatten() {
+        if idx > len {
+            return Err(InvalidStringIndex(idx, len.saturating_sub(1)));
+        }
+    }
 
     if let (Some(start), Some(end)) = (start, end) {
         if start == end {
@@ -246,13 +252,14 @@ pub fn string_fill(vm: &mut Vm) -> Result<VCell, Error> {
     let mut s = s.borrow_mut();
     let s = s.deref_mut();
 
+    // validates the range before the number of characters is computed
+    let (start_offset, end_offset) = char_substring_offset(s, start, end)?;
     let count = match (start, end) {
-        (Some(start), Some(end)) if end >= start => end - start,
+        (Some(start), Some(end)) => end - start,
         (Some(start), None) => s.chars().count() - start,
         _ => s.chars().count(),
     };
-
-    let (start, end) = char_substring_offset(s, start, end)?;
+    let (start, end) = (start_offset, end_offset);
     let fill = std::iter::repeat_n(c, count).collect::<String>();
 
     s.replace_range(start..end, &fill);
@@ -268,7 +275,7 @@ pub fn string_set(vm: &mut Vm) -> Result<VCell, Error> {
     let range = s
         .char_indices()
         .nth(idx)
-        .ok_or_else(|| InvalidStringIndex(idx, s.chars().count() - 1))
+        .ok_or_else(|| InvalidStringIndex(idx, s.chars().count().saturating_sub(1)))
         .map(|it| (it.0, it.0 + it.1.len_utf8()))?;
     s.replace_range(range.0..range.1, &c.to_string());
     Ok(VCell::void())
@@ -287,7 +294,7 @@ pub fn make_string(vm: &mut Vm) -> Result<VCell, Error> {
 }
 
 pub fn string(vm: &mut Vm) -> Result<VCell, Error> {
-    let argc = pop_argc(vm, 1, None, "string")?;
+    let argc = pop_argc(vm, 0, None, "string")?;
     let mut v = vec!['\0'; argc];
     for it in 0..argc {
         *v.get_mut(argc - it - 1).unwrap() = pop_char(vm)?;
